@@ -174,8 +174,8 @@ fn ang4(a: [f64; 4], b: [f64; 4]) -> f64 {
 }
 
 fn sphere<T: Tier + Dom<M = Sh>>(rep: &mut Report) {
-    let uq = alphabet::uq(0);
-    let sub: Vec<_> = uq.iter().step_by(rep.pick(4, 1)).copied().collect();
+    let uq = if rep.quick() { alphabet::uq(0) } else { alphabet::uq(1) };
+    let sub: Vec<_> = uq.iter().step_by(rep.pick(4, 9)).copied().collect();
     let axes = alphabet::uv3(false);
     let cosines: [f64; 10] = [0.96, 0.99, 0.9990, 0.9994, 0.9996, 0.99999, 1.0, -0.9994, -0.9996, -1.0];
     let ts: [f64; 6] = [0.0, 0.125, 0.25, 0.5, 0.75, 1.0];
@@ -209,10 +209,11 @@ fn sphere<T: Tier + Dom<M = Sh>>(rep: &mut Report) {
             let (af, bf): ([f64; 4], [f64; 4]) = (a.map(|x| x.f()), b.map(|x| x.f()));
             let (af, bf) = (scale4(af, 1.0 / norm4(af)), scale4(bf, 1.0 / norm4(bf)));
             let dot = dot4(af, bf);
-            // shorter arc: towards b if a.b >= 0, else towards -b
-            let bs = if dot < 0.0 { scale4(bf, -1.0) } else { bf };
-            let whole = ang4(af, bs);
-            if dot == 0.0 {
+            // shorter arc: towards b if a.b >= 0, else towards -b. When a.b is zero up to rounding, its
+            // computed sign is noise and either arc (both a quarter turn) satisfies the statement.
+            let ambiguous = dot.abs() <= 64.0 * T::U;
+            let cands: Vec<[f64; 4]> = if ambiguous { vec![bf, scale4(bf, -1.0)] } else if dot < 0.0 { vec![scale4(bf, -1.0)] } else { vec![bf] };
+            if dot == 0.0 || ambiguous {
                 ctx.branch("zero-dot");
             }
             if dot < 0.0 {
@@ -226,36 +227,51 @@ fn sphere<T: Tier + Dom<M = Sh>>(rep: &mut Report) {
             for t in ts {
                 for (name, r) in [("nlerp", mk_q(a).nlerp(mk_q(b), c(t))), ("slerp", mk_q(a).slerp(mk_q(b), c(t)))] {
                     let rf: [f64; 4] = qa(r).map(|x| x.f());
-                    // unit length
-                    ctx.check((norm4(rf) - 1.0).abs() <= base_tol, &key(&format!("{name}/unit")), || format!("|{name}(a,b,{t})| = {}", norm4(rf)));
-                    let rn = scale4(rf, 1.0 / norm4(rf));
-                    // in the plane of a and b
-                    let e2 = sub4(bs, scale4(af, dot4(af, bs)));
-                    let ne2 = norm4(e2);
-                    if ne2 > 1e-4 {
-                        let e2 = scale4(e2, 1.0 / ne2);
-                        let off = sub4(sub4(rn, scale4(af, dot4(rn, af))), scale4(e2, dot4(rn, e2)));
-                        ctx.check(norm4(off) <= base_tol / ne2, &key(&format!("{name}/coplanar")), || format!("{name}(a,b,{t}) leaves the plane of a and b by {:e}", norm4(off)));
-                    }
-                    // on the shorter arc between a and +-b
-                    let (d1, d2) = (ang4(af, rn), ang4(rn, bs));
-                    ctx.check(d1 + d2 <= whole + base_tol * 4.0 + 1e-12, &key(&format!("{name}/on-shorter-arc")), || format!("angle(a,r) + angle(r,+-b) = {} > angle(a,+-b) = {whole} at t = {t}", d1 + d2));
-                    // endpoints
-                    if t == 0.0 {
-                        ctx.check(norm4(sub4(rn, af)) <= base_tol, &key(&format!("{name}/t=0-is-a")), || format!("{name}(a,b,0) = {:?}", rf));
-                    }
-                    if t == 1.0 {
-                        ctx.check(norm4(sub4(rn, bs)) <= base_tol, &key(&format!("{name}/t=1-is-+-b")), || format!("{name}(a,b,1) = {:?}, expected {:?}", rf, bs));
-                    }
-                    // slerp: constant angular speed
-                    if name == "slerp" {
-                        let want = t * whole;
-                        let tol = match regime {
-                            // exact up to the conditioning of acos / sin at small and large arcs
-                            "slerp-regime" => base_tol * 4.0 / whole.sin().abs().max(1e-3) ,
-                            _ => 1e-5,
-                        };
-                        ctx.check((d1 - want).abs() <= tol, &key(&format!("slerp/constant-angular-speed/{regime}")), || format!("arc from a to slerp(a,b,{t}) is {d1}, expected {t} * {whole} = {want} (tolerance {tol:e}, a.b = {dot})"));
+                    ctx.tn(6);
+                    // all clauses for one admissible choice of the far endpoint
+                    let eval = |bs: [f64; 4]| -> Vec<(String, String)> {
+                        let mut fails: Vec<(String, String)> = Vec::new();
+                        let whole = ang4(af, bs);
+                        if !((norm4(rf) - 1.0).abs() <= base_tol) {
+                            fails.push((format!("{name}/unit"), format!("|{name}(a,b,{t})| = {}", norm4(rf))));
+                        }
+                        let rn = scale4(rf, 1.0 / norm4(rf));
+                        let e2 = sub4(bs, scale4(af, dot4(af, bs)));
+                        let ne2 = norm4(e2);
+                        if ne2 > 1e-4 {
+                            let e2 = scale4(e2, 1.0 / ne2);
+                            let off = sub4(sub4(rn, scale4(af, dot4(rn, af))), scale4(e2, dot4(rn, e2)));
+                            if !(norm4(off) <= base_tol / ne2) {
+                                fails.push((format!("{name}/coplanar"), format!("{name}(a,b,{t}) leaves the plane of a and b by {:e}", norm4(off))));
+                            }
+                        }
+                        let (d1, d2) = (ang4(af, rn), ang4(rn, bs));
+                        if !(d1 + d2 <= whole + base_tol * 4.0 + 1e-12) {
+                            fails.push((format!("{name}/on-shorter-arc"), format!("angle(a,r) + angle(r,+-b) = {} > angle(a,+-b) = {whole} at t = {t}", d1 + d2)));
+                        }
+                        if t == 0.0 && !(norm4(sub4(rn, af)) <= base_tol) {
+                            fails.push((format!("{name}/t=0-is-a"), format!("{name}(a,b,0) = {:?}", rf)));
+                        }
+                        if t == 1.0 && !(norm4(sub4(rn, bs)) <= base_tol) {
+                            fails.push((format!("{name}/t=1-is-+-b"), format!("{name}(a,b,1) = {:?}, expected {:?}", rf, bs)));
+                        }
+                        if name == "slerp" {
+                            let want = t * whole;
+                            let tol = match regime {
+                                // exact up to the conditioning of acos / sin at small and large arcs
+                                "slerp-regime" => base_tol * 4.0 / whole.sin().abs().max(1e-3),
+                                _ => 1e-5,
+                            };
+                            if !((d1 - want).abs() <= tol) {
+                                fails.push((format!("slerp/constant-angular-speed/{regime}"), format!("arc from a to slerp(a,b,{t}) is {d1}, expected {t} * {whole} = {want} (tolerance {tol:e}, a.b = {dot})")));
+                            }
+                        }
+                        fails
+                    };
+                    let results: Vec<Vec<(String, String)>> = cands.iter().map(|bs| eval(*bs)).collect();
+                    if !results.iter().any(|f| f.is_empty()) {
+                        let (k, m) = results[0][0].clone();
+                        ctx.fail(&key(&k), || m);
                     }
                 }
             }
